@@ -128,6 +128,8 @@ func c16NewEnv(group string) (*c16Env, error) {
 			switch ex.TCP {
 			case "silent":
 				return scripted.Action{Tag: "tcp-silent", Drop: true}
+			case "slow": // answers, but only after the caller's deadline has passed
+				return scripted.Action{Tag: "tcp-slow", Leg: scripted.LegTCP, Delay: 700 * time.Millisecond}
 			case "garbage":
 				return scripted.Action{Tag: "tcp-garbage", Drop: true, Before: []scripted.Extra{{Kind: scripted.ExtraGarbage}}}
 			case "close":
@@ -179,7 +181,7 @@ func (e *c16Env) close() {
 
 var c16Forms = []string{"udp://", "bare", "dialaddr-name", "dialaddr-ip"}
 var c16UDP = []string{"tc", "ok", "silent"}
-var c16TCP = []string{"ok", "refuse", "silent", "garbage", "close"}
+var c16TCP = []string{"ok", "refuse", "silent", "garbage", "close", "slow"}
 var c16Types = []uint16{1, 28, 16, 15, 2, 5, 6, 12, 33, 65, 255, 257}
 var c16Classes = []uint16{1, 1, 1, 3, 4, 255}
 
@@ -209,6 +211,9 @@ func c16Gen(r *gen.R, i int, udp, tcp string) *c16Ex {
 	ex.DeadMs = 2500
 	if udp == "silent" || (udp == "tc" && tcp == "silent") {
 		ex.DeadMs = r.Range(400, 1000)
+	}
+	if tcp == "slow" {
+		ex.DeadMs = r.Range(250, 500)
 	}
 	return ex
 }
@@ -347,6 +352,10 @@ func c16Judge(ex *c16Ex, lg *c16Logs) (sig, what string, soft bool) {
 			if ex.GotName != ex.Name || ex.GotType != ex.QType || ex.GotClass != ex.QClass {
 				return "tcp-reply-altered", fmt.Sprintf("exchange %q: returned question %q/%d/%d", ex.Name, ex.GotName, ex.GotType, ex.GotClass), false
 			}
+		case "slow": // the TCP reply comes 700 ms after the query, the caller waits 250-500 ms
+			if ex.Returned && (ex.Leg != "T" || !hasNonce(tcpR, ex.Nonce)) {
+				return "tcp-outcome-not-returned", fmt.Sprintf("exchange %q: returned nonce %d leg %q is not the TCP reply sent for it", ex.Name, ex.Nonce, ex.Leg), false
+			}
 		default: // refuse | silent | garbage | close: the TCP exchange fails
 			if ex.Returned {
 				return "message-although-tcp-failed:tcp=" + ex.TCP, fmt.Sprintf("exchange %q: TCP leg %s, yet a message (leg %q tc %v nonce %d) was returned", ex.Name, ex.TCP, ex.Leg, ex.GotTC, ex.Nonce), false
@@ -405,7 +414,7 @@ func runC16(c *Ctx) {
 	exs := make([]*c16Ex, n)
 	for i := range exs {
 		r := gen.New(c.Seed, "c16", i)
-		cell := i % 15
+		cell := i % 18
 		exs[i] = c16Gen(r, i, c16UDP[cell%3], c16TCP[cell/3])
 	}
 	// shuffle so that the cells interleave in time
